@@ -306,6 +306,7 @@ class C17(Check):
         "no_warnings_via_config", "confirmed_replaced", "declined_kept",
         "disk_fault_fired", "same_process_second_save",
         "colliding_outputs_in_one_command", "target_is_symlink",
+        "target_appeared_during_command",
     )
 
     def setup_worker(self):
@@ -500,6 +501,15 @@ class C17(Check):
             answers = [("y" if rng.random() < 0.85 else "n")
                        for _ in range(nq)] + answers
         op["answers"] = answers
+        if kind in ("cli_ape", "cli_rpe", "cli_traj", "cli_res") and (
+                rng.random() < 0.2):
+            absent = [c for c in exact if c not in pre]
+            if absent:
+                # another job creates the target while this command runs
+                op["late"] = {"path": rng.choice(absent),
+                              "after": rng.randint(1, 3)}
+                op["answers"] = answers = answers + [rng.choice(
+                    ["n", "y", "", "n"])]
         if rng.random() < 0.1 and pre and "y" in answers:
             tgt = rng.choice(sorted(pre))
             op["fault"] = {"path": tgt, "errno": rng.choice([28, 13])}
@@ -710,8 +720,12 @@ class C17(Check):
                 out = io.StringIO()
                 with contextlib.redirect_stdout(out), \
                         contextlib.redirect_stderr(out):
+                    late = None
+                    if op.get("late"):
+                        late = dict(op["late"], data=bytes(
+                            prng.getrandbits(8) for _ in range(40)))
                     events, exc = sb.run(fn, op.get("answers", ()),
-                                         op.get("fault"))
+                                         op.get("fault"), late=late)
                 plt.close("all")
                 S.clear()
                 S.update(saved_settings)
@@ -723,8 +737,9 @@ class C17(Check):
                 if any(p in seen_paths for p in exact):
                     res.stats["probe.same_process_second_save"] += 1
                 seen_paths.update(exact)
-                violation = self._oracle(op, events, exc, before, after, res,
-                                         out.getvalue())
+                violation = self._oracle(
+                    op, events, exc, before, after, res, out.getvalue(),
+                    {late["path"]: late["data"]} if late else None)
                 trail.append([op["kind"], [list(e) for e in events
                                            if e[0] != "open_r"],
                               type(exc).__name__ if exc else None,
@@ -758,7 +773,9 @@ class C17(Check):
         return {"class": what, "sig": f"C17:{op['kind']}:{what}",
                 "detail": dict(detail, what=what)}
 
-    def _oracle(self, op, events, exc, before, after, res, stdout):
+    def _oracle(self, op, events, exc, before, after, res, stdout,
+                late_data=None):
+        late_data = late_data or {}
         W = warnings_on(op)
         exact, globs = expected_outputs(op)
         fault = next((e for e in events if e[0] == "fault"), None)
@@ -791,6 +808,15 @@ class C17(Check):
             res.aux.setdefault("unexpected", []).append(
                 f"{op['kind']}: {type(exc).__name__}: {str(exc)[:120]}")
 
+        # a file that another job dropped into the sandbox while the operation
+        # was running is an existing file from that moment on
+        planted_at = {}
+        for i, e in enumerate(events):
+            if e[0] == "planted":
+                planted_at[e[1]] = i
+                before = dict(before)
+                before[e[1]] = (late_data.get(e[1], b""), e[2])
+                res.stats["probe.target_appeared_during_command"] += 1
         # paths that are the same file (a symlink and the file it points to)
         by_ino = {}
         for path, (_b, ino) in before.items():
@@ -803,6 +829,8 @@ class C17(Check):
             names = group(P)
             out = []
             for i, e in enumerate(events):
+                if i <= planted_at.get(P, -1):
+                    continue
                 if e[0] in sandbox.MUTATING and any(n in e[1:] for n in names):
                     out.append(i)
             return out
@@ -819,7 +847,8 @@ class C17(Check):
             new = after.get(P)
             changed = new is None or new[0] != old_bytes
             ys = [i for i, path, a in prompts
-                  if a == "y" and path in group(P)]
+                  if a == "y" and path in group(P)
+                  and i > planted_at.get(P, -1)]
             # prompts that are, or may be, about P (no announcing record: the
             # question text mentions overwriting or the file's name)
             asked = [i for i, path, a in prompts if path in group(P) or (
